@@ -261,7 +261,13 @@ pub fn run(params: &Params) {
   version_models.push(model.clone()); // v2
   let mut next_seq = 0u32;
   let mut credentials: Vec<(String, String, u32)> = Vec::new(); // (jwt, service id, index)
-  let steps = 2 + ctx::choose(9);
+  // one run in fifty is a long history
+  let steps = if ctx::chance(1, 50) {
+    ctx::stat("probe.long_history");
+    20 + ctx::choose(40)
+  } else {
+    2 + ctx::choose(9)
+  };
   let mut nontrivial = false;
   for step in 0..steps {
     clock.advance(3600);
